@@ -54,11 +54,12 @@ func (self *Compiler) compilePrefixOp(op ast.PrefixOperator, span errors.Span) {
 //
 
 func (self *Compiler) compileCallExpr(node ast.AnalyzedCallExpression) {
-	// Push each argument onto the stack
-	// The order is reversed so that later popping can be done naturally
+	// Push each argument onto the stack.
 	// Arguments are evaluated in program order, the last argument ends up on top of the stack.
-	for i := 0; i < len(node.Arguments.List); i++ {
-		self.compileExpr(node.Arguments.List[i].Expression)
+	compileArgs := func() {
+		for i := 0; i < len(node.Arguments.List); i++ {
+			self.compileExpr(node.Arguments.List[i].Expression)
+		}
 	}
 
 	if node.Base.Kind() == ast.IdentExpressionKind {
@@ -66,6 +67,7 @@ func (self *Compiler) compileCallExpr(node ast.AnalyzedCallExpression) {
 
 		// Special case: base is `throw`
 		if base.Ident.Ident() == "throw" {
+			compileArgs()
 			self.insert(newPrimitiveInstruction(Opcode_Throw), node.Range)
 			return
 		}
@@ -77,13 +79,17 @@ func (self *Compiler) compileCallExpr(node ast.AnalyzedCallExpression) {
 				panic("This is an impossible state.")
 			}
 
+			// The called value is evaluated before the arguments and lies below them on the stack.
 			self.compileExpr(node.Base)
+			compileArgs()
 			self.insert(newValueInstruction(Opcode_Copy_Push, *value.NewValueInt(int64(len(node.Arguments.List)))), node.Span())
 			self.insert(newPrimitiveInstruction(Opcode_Call_Val), node.Span())
 		} else {
 			// TODO: the span mapping is broken here?
 			name, found := self.getMangledFn(base.Ident.Ident())
 			if found {
+				compileArgs()
+
 				opcode := Opcode_Call_Imm
 				if node.IsSpawn {
 					opcode = Opcode_Spawn
@@ -94,6 +100,7 @@ func (self *Compiler) compileCallExpr(node ast.AnalyzedCallExpression) {
 			} else {
 				// call a global value
 				self.insert(newOneStringInstruction(Opcode_GetGlobImm, base.Ident.Ident()), node.Range)
+				compileArgs()
 				self.insert(newValueInstruction(Opcode_Copy_Push, *value.NewValueInt(int64(len(node.Arguments.List)))), node.Span())
 				self.insert(newPrimitiveInstruction(Opcode_Call_Val), node.Range)
 			}
@@ -103,7 +110,9 @@ func (self *Compiler) compileCallExpr(node ast.AnalyzedCallExpression) {
 			panic("This is an impossible state.")
 		}
 
+		// The base (for instance the receiver of a member call) is evaluated before the arguments.
 		self.compileExpr(node.Base)
+		compileArgs()
 
 		// insert number of args
 		self.insert(newValueInstruction(Opcode_Copy_Push, *value.NewValueInt(int64(len(node.Arguments.List)))), node.Span())
